@@ -122,6 +122,11 @@ def loop_iterates_whole_map(ctx, fn, head, map_pred):
             cond, targets, otherwise, names = info
             if cond.k == "discr" and names:
                 c = strip(cond.a[0])
+                # leaving through `?` (error propagation) is not skipping pairs
+                if c.k == "call" and c.a[0].name == "branch" and c.a[0].trait == "std::ops::Try":
+                    labs = [names.get(v) for v, tb in targets if tb == b]
+                    if labs == ["Break"]:
+                        good = True
                 if c.k == "call" and c.site == n:
                     labs = [names.get(v) for v, tb in targets if tb == b]
                     if labs == ["None"]:
